@@ -790,6 +790,11 @@ impl Version {
     based on the number of files in the level.
     */
     fn max_bytes_for_level(level: usize) -> f64 {
+        #[cfg(raindb_verif)]
+        if let Some(limit) = crate::verif::level_size_limit(level) {
+            return limit;
+        }
+
         // The threshold is calculated as 10x multiples of 1 MiB.
         let starting_multiple_bytes: f64 = 1. * 1024. * 1024.;
         let mut level = level;
